@@ -1,2 +1,61 @@
-(* C13.  Theorems are added here as they are proved. *)
-From PJ.Model Require Import Base.
+(* C13 -- stream header fidelity and stream-type validation. *)
+From PJ.Model Require Import Base Terms Encoder Streams Decoder Spec.
+From PJ.Proofs Require Import OptionsProofs DecoderProofs.
+
+Theorem C13_header_fidelity :
+  forall (c : stream_class) (ig : integ) (o : soptions) (s : stream) (rows : list row) (md : list (str * str)) (d : bool),
+    stream_new c ig o = Ok s ->
+    options_from_frame {| f_rows := options_row s :: rows; f_meta := md |} d =
+    Ok {| po_phys := physical_type c; po_logical := st_logical s;
+          po_maxn := so_maxn o; po_maxp := so_maxp o; po_maxd := so_maxd o;
+          po_name := p_name (so_params o); po_gen := p_gen (so_params o); po_star := p_star (so_params o);
+          po_version := if p_nd (so_params o) then 2 else 1; po_delimited := d; po_nd := p_nd (so_params o) |}.
+Proof. exact header_fidelity. Qed.
+Print Assumptions C13_header_fidelity.
+
+Theorem C13_pairs_are_the_specification_table :
+  forall p l : N, In (p, l) all_pairs -> type_compat p l = spec_compat p l.
+Proof. exact compat_is_spec. Qed.
+Print Assumptions C13_pairs_are_the_specification_table.
+
+Theorem C13_forbidden_pairs_rejected_both_sides :
+  forall (c : stream_class) (ig : integ) (o : soptions) (fl : flow) (w : woptions) (rows : list row) (md : list (str * str)) (d : bool),
+    (so_flow o = Some fl /\ type_compat (physical_type c) (fl_logical fl) = false -> exists e, stream_new c ig o = Err e) /\
+    (type_compat (o_phys w) (o_logical w) = false -> exists e, options_from_frame {| f_rows := ROptions w :: rows; f_meta := md |} d = Err e).
+Proof. exact forbidden_pair_rejected_both_sides. Qed.
+Print Assumptions C13_forbidden_pairs_rejected_both_sides.
+
+Theorem C13_small_name_table_rejected_both_sides :
+  forall (c : stream_class) (ig : integ) (o : soptions) (w : woptions) (rows : list row) (md : list (str * str)) (d : bool),
+    (so_maxn o < 8 -> stream_new c ig o = Err Conformance) /\
+    (o_maxn w < 8 -> exists e, options_from_frame {| f_rows := ROptions w :: rows; f_meta := md |} d = Err e).
+Proof. exact small_name_table_rejected_both_sides. Qed.
+Print Assumptions C13_small_name_table_rejected_both_sides.
+
+Theorem C13_large_tables_rejected_on_read :
+  forall po : poptions,
+    MAX_LOOKUP_SIZE < po_maxn po \/ MAX_LOOKUP_SIZE < po_maxp po \/ MAX_LOOKUP_SIZE < po_maxd po ->
+    exists e, decoder_new po = Err e.
+Proof. exact decoder_refuses_large. Qed.
+Print Assumptions C13_large_tables_rejected_on_read.
+
+Theorem C13_newer_version_rejected :
+  forall (po : poptions) (o : woptions), po_version po <= 2 -> 2 < o_version o -> validate_stream_options po o = false.
+Proof. exact reject_newer_version. Qed.
+Print Assumptions C13_newer_version_rejected.
+
+Theorem C13_strict_flat_exact :
+  forall po : poptions, strict_flat_ok po = true <-> (po_logical po = 1 \/ po_logical po = 2).
+Proof. exact strict_flat_exact. Qed.
+Print Assumptions C13_strict_flat_exact.
+
+Theorem C13_strict_grouped_exact :
+  forall po : poptions, strict_grouped_ok po = true <-> (po_logical po <> 0 /\ po_logical po <> 1 /\ po_logical po <> 2).
+Proof. exact strict_grouped_exact. Qed.
+Print Assumptions C13_strict_grouped_exact.
+
+Theorem C13_nonstrict_ignores_logical_type :
+  forall (ig : integ) (ak : adapter_kind) (po po' : poptions) (r : row) (st : dstate),
+    (forall o, r <> ROptions o) -> decode_row ig ak po r st = decode_row ig ak po' r st.
+Proof. exact nonstrict_ignores_logical. Qed.
+Print Assumptions C13_nonstrict_ignores_logical_type.
